@@ -41,7 +41,7 @@ class SchedImpl(I.Impl):
         self.turn = threading.Event()
         self.threads = {}
         self.crash = {}
-        orig = self.srv._new_db
+        orig = self.srv.dbs.default_factory
 
         def new_db():
             db = orig()
